@@ -17,7 +17,7 @@ LEVEL = "exploration"
 TECHNIQUE = "bounded-exhaustive enumeration of all DAG pipelines x outputs x argument cuts, lazy vs reference evaluator, task graph vs reference dependency edges"
 RULE = ("the pipelines, outputs and argument combinations of C02 (G-DAG N<=2 decorated + N=3 quick; thorough adds the N=4 single-output family) with lazy=True, "
         "with and without an active construct_dag() (and, once per pipeline, right after a construct_dag() block that was left through an exception, and with list-valued inputs rendered type-strictly), evaluate() called three times, and every ordered pair of requested outputs "
-        "evaluated in both orders on one lazy pipeline - as two plain requests, inside ONE construct_dag() block, and with cache=True on every function. Plus: lazy results inside list/tuple/set arguments in one dag block, and a function OWNED by a lazy pipeline (built from PipeFuncs / from plain callables) called directly with a deferred argument. non-trivial = distinct (pipeline, output, cut, mode) with >= 2 functions on the dependency path")
+        "evaluated in both orders on one lazy pipeline - as two plain requests, inside ONE construct_dag() block, and with cache=True on every function. Plus: lazy results inside list/tuple/set arguments in one dag block, and a function OWNED by a lazy pipeline (built from PipeFuncs / from plain callables) called directly with a deferred argument; a deferred result made before (or in an earlier) construct_dag() block and consumed inside one; a deferred result evaluated after its pipeline was garbage-collected. non-trivial = distinct (pipeline, output, cut, mode) with >= 2 functions on the dependency path")
 ASSUMPTIONS = c02.ASSUMPTIONS + ["task-graph nodes whose func is not a PipeFunc are output pickers and are contracted"]
 BUDGET = {"quick": 110.0, "thorough": 900.0}
 
@@ -248,6 +248,58 @@ def check_direct_call():
     return res
 
 
+def check_lifetimes():
+    """deferred objects that outlive what made them: (a) a deferred result created BEFORE a construct_dag() block and consumed
+    inside it (the graph stays acyclic, no self-loop, one edge producer -> consumer); (b) a deferred result whose lazy pipeline
+    has been garbage-collected before evaluate()"""
+    import gc
+
+    from pipefunc import PipeFunc, Pipeline
+    res = []
+    # (a) ---------------------------------------------------------------------------------------------------------------
+    for first in ("outside-then-dag", "dag-then-second-dag"):
+        terms.LOG.clear()
+        try:
+            with contextlib.redirect_stdout(io.StringIO()):
+                p1 = Pipeline([PipeFunc(terms.make_function("f", ["x"]), "o")], lazy=True)
+                p2 = Pipeline([PipeFunc(terms.make_function("g", ["o", "y"]), "t"), PipeFunc(terms.make_function("h", ["t"]), "w")], lazy=True)
+                if first == "outside-then-dag":
+                    la = p1("o", x="<x>")
+                else:
+                    with construct_dag():
+                        la = p1("o", x="<x>")
+                with construct_dag() as tg:
+                    lw = p2("w", o=la, y="<y>")
+                g = tg.graph
+                val = lw.evaluate()
+        except Exception as e:  # noqa: BLE001
+            res.append((findings.exc_sig(e, mode="lifetimes", case=first), f"a deferred result made {first} raised {type(e).__name__}: {str(e)[:120]}"))
+            continue
+        loops = list(nx.selfloop_edges(g))
+        if loops or not nx.is_directed_acyclic_graph(g):
+            res.append(({"kind": "dag-cyclic", "mode": "lifetimes", "case": first},
+                        f"deferred f made {first}, consumed inside a construct_dag() block: task graph edges {sorted(g.edges)} (self-loops {loops}) are not acyclic"))
+        if str(val) != "h(g(f(<x>),<y>))" or sorted(n for n, _ in terms.LOG) != ["f", "g", "h"]:
+            res.append(({"kind": "value-mismatch", "mode": "lifetimes", "case": first}, f"{first}: evaluate() = {val!r}, executed {sorted(n for n, _ in terms.LOG)}"))
+    # (b) ---------------------------------------------------------------------------------------------------------------
+    terms.LOG.clear()
+    try:
+        with contextlib.redirect_stdout(io.StringIO()):
+            def deferred():
+                p = Pipeline([PipeFunc(terms.make_function("f", ["x"]), "o"), PipeFunc(terms.make_function("g", ["o", "y"]), "t")], lazy=True)
+                return p("t", x="<x>", y="<y>")
+            lz = deferred()
+            gc.collect()
+            val = lz.evaluate()
+    except Exception as e:  # noqa: BLE001
+        res.append((findings.exc_sig(e, mode="lifetimes", case="pipeline-collected"), f"evaluate() after the pipeline was collected raised {type(e).__name__}: {str(e)[:120]}"))
+    else:
+        if str(val) != "g(f(<x>),<y>)" or sorted(n for n, _ in terms.LOG) != ["f", "g"]:
+            res.append(({"kind": "value-mismatch", "mode": "lifetimes", "case": "pipeline-collected"},
+                        f"deferred result evaluated after its lazy pipeline was garbage-collected: {val!r}, executed {sorted(n for n, _ in terms.LOG)}; eager g(f(<x>),<y>)"))
+    return res
+
+
 def run_spec(spec, acc):
     try:
         p0 = gen_dag.build(spec)
@@ -311,6 +363,9 @@ def run_unit(unit):
         acc.case(("direct-call",))
         for sig, text in check_direct_call():
             acc.violation(sig, {"direct_call": True}, text)
+        acc.case(("lifetimes",), n=3)
+        for sig, text in check_lifetimes():
+            acc.violation(sig, {"lifetimes": True}, text)
         return acc
     for k, spec in enumerate(c02.specs_for(st)):
         if k % n == c:
@@ -319,6 +374,8 @@ def run_unit(unit):
 
 
 def replay(art):
+    if art.get("lifetimes"):
+        return [s for s, _ in check_lifetimes()]
     if art.get("direct_call"):
         return [s for s, _ in check_direct_call()]
     if art.get("containers"):
